@@ -54,7 +54,7 @@ def r1(ctx, rep):
         if len(cands) > 1:
             # disambiguate by module words of the resolved path
             words = [w for w in owner_path.split("::")[:-1]]
-            best = [a for a in cands if all(w in a["path"] for w in words[-2:])]
+            best = [a for a in cands if all(w in a["path"].split("::") for w in words[-2:])]   # whole segments: `rq` is a substring of `prqlc`
             cands = best or cands
         if not cands:
             continue
